@@ -541,7 +541,9 @@ def shrink(case):
 def plan(tier):
   if tier == 'quick':
     return {'batches': 48, 'timeout': 1500, 'histories': 10, 'enumerate_aborts': 1, 'abort_positions': 8, 'wall_budget_s': 420}
-  return {'batches': 640, 'timeout': 1800, 'histories': 40, 'enumerate_aborts': 6, 'abort_positions': 14, 'wall_budget_s': 1500}
+  # a batch must stay well inside its timeout even when the machine is shared (a timeout is a
+  # harness error, never a pass): about 300 histories per batch
+  return {'batches': 640, 'timeout': 3000, 'histories': 24, 'enumerate_aborts': 3, 'abort_positions': 14, 'wall_budget_s': 1500}
 
 
 def abort_enumeration(case, scratch, positions):
